@@ -17,6 +17,7 @@ import (
 	"sync/atomic"
 	"time"
 
+	"github.com/nuetzliches/hookaido/internal/verifhook"
 	sqlite3 "modernc.org/sqlite"
 )
 
@@ -471,6 +472,7 @@ CREATE TABLE IF NOT EXISTS schema_migrations (
 		default:
 			return fmt.Errorf("sqlite: unknown migration %d", v)
 		}
+		verifhook.Point("sqlite.migrate.step")
 	}
 
 	if !hasVersion || current != schemaVersion {
@@ -551,6 +553,7 @@ func (s *SQLiteStore) Enqueue(env Envelope) error {
 	}
 
 	startedAt := time.Now()
+	verifhook.Point("sqlite.enqueue.insert.before")
 	_, err = s.db.ExecContext(context.Background(), `
 INSERT INTO queue_items (
   id, route, target, state, received_at, attempt, next_run_at,
@@ -577,6 +580,7 @@ INSERT INTO queue_items (
 		return mapQueueInsertError(err)
 	}
 
+	verifhook.Point("sqlite.enqueue.insert.after")
 	s.observeSQLiteTx(sqliteTxClassWrite, startedAt, true)
 	s.signal()
 	return nil
@@ -850,6 +854,7 @@ INSERT INTO queue_items (
 		if err != nil {
 			return 0, mapQueueInsertError(err)
 		}
+		verifhook.Point("sqlite.batch.insert")
 	}
 
 	if err := s.commitTx(ctx, conn, startedAt, sqliteTxClassWrite); err != nil {
@@ -1558,7 +1563,9 @@ func (s *SQLiteStore) withLeaseMutation(
 	defer conn.Close()
 
 	startedAt := time.Now()
+	verifhook.Point("sqlite.lease.mutate.before")
 	affected, err := mutate(ctx, conn, now, leaseID)
+	verifhook.Point("sqlite.lease.mutate.after")
 	if err != nil {
 		s.observeSQLiteError(err)
 		s.observeSQLiteTx(sqliteTxClassWrite, startedAt, false)
@@ -1724,9 +1731,11 @@ func (s *SQLiteStore) withLeaseBatch(
 	}
 
 	if len(validIDs) > 0 {
+		verifhook.Point("sqlite.leasebatch.fn.before")
 		if err := fn(ctx, conn, now, validIDs); err != nil {
 			return LeaseBatchResult{}, err
 		}
+		verifhook.Point("sqlite.leasebatch.fn.after")
 		res.Succeeded = len(validIDs)
 	}
 
@@ -3091,17 +3100,20 @@ func (s *SQLiteStore) beginImmediateWithRetry(ctx context.Context, conn *sql.Con
 			}
 			return time.Time{}, err
 		}
+		verifhook.Point("sqlite.begin")
 		return time.Now(), nil
 	}
 	return time.Time{}, errors.New("sqlite: begin immediate retry exhausted")
 }
 
 func (s *SQLiteStore) commitTx(ctx context.Context, conn *sql.Conn, startedAt time.Time, class sqliteTxClass) error {
+	verifhook.Point("sqlite.commit.before")
 	if _, err := conn.ExecContext(ctx, "COMMIT;"); err != nil {
 		s.observeSQLiteError(err)
 		s.observeSQLiteTx(class, startedAt, false)
 		return err
 	}
+	verifhook.Point("sqlite.commit.after")
 	s.observeSQLiteTx(class, startedAt, true)
 	return nil
 }
@@ -3186,8 +3198,10 @@ func (s *SQLiteStore) checkpointPassive() error {
 	var busyPages int
 	var walPages int
 	var checkpointedPages int
+	verifhook.Point("sqlite.checkpoint.before")
 	err := s.db.QueryRowContext(context.Background(), "PRAGMA wal_checkpoint(PASSIVE);").
 		Scan(&busyPages, &walPages, &checkpointedPages)
+	verifhook.Point("sqlite.checkpoint.after")
 	s.observeSQLiteCheckpoint(time.Since(startedAt), err)
 	return err
 }
